@@ -9,6 +9,7 @@ CONSTANTS
   IllegalM = {42}
   ReservedM <- ReservedCon
   EmitGen = FALSE
+  Heads <- WideHeads
   SampleMod = 1
 INIT Init
 NEXT Next
